@@ -1,13 +1,906 @@
-//! C16 — stub (not built yet; not registered in MANIFEST.json).
-use super::*;
+//! C16 — concurrent saves of a workbook or its clones equal sequential saves.
+//!
+//! Hook H1 (`umya_spreadsheet::verif_hooks`, cfg(umya_verif)) gives a yield point in front of
+//! every shared-string-table operation of the writer.  `sched` below is a cooperative
+//! token-passing scheduler: the savers are real threads, exactly one of them is runnable at
+//! any time, and a generated *schedule* decides which saver performs its next step.  See
+//! notes/C16.md for the guarantees.
+use super::c12::{decode_package, save_to_vec, unzip_parts, DecodedSheet};
+use super::Prop;
+use crate::engine::*;
+use proptest::prelude::*;
+use rayon::prelude::*;
+use serde::{Deserialize, Serialize};
+use serde_json::{json, Value};
+use std::collections::BTreeMap;
+use std::io::Cursor;
+use std::sync::atomic::{AtomicBool, AtomicU64, Ordering};
+use std::sync::{Arc, Barrier};
+use umya_spreadsheet::{reader, Spreadsheet};
 
 pub fn prop() -> Prop {
     Prop {
         id: "C16",
-        describe: |_| {},
-        subs: no_subs,
-        extra: no_extra,
-        replay_extra: no_replay_extra,
-        watchdog_s: (900, 7200),
+        describe,
+        subs,
+        extra,
+        replay_extra,
+        watchdog_s: (900, 14400),
+    }
+}
+
+fn describe(ctx: &Ctx) {
+    ctx.rule("2..3 savers (real threads under a cooperative scheduler driven by hook H1) save the same workbook through shared references or clones of one workbook whose string sets are equal / disjoint / overlapping, 2..5 text cells each, base workbook never saved / saved once before / reloaded from a file / lazily reloaded; the schedule (which saver performs its next shared-string-table step) is generated: random (sub `random`), every interleaving of the 2-saver configurations (sub `exhaustive2`; quick: 2 text cells each, thorough: up to 5), a bounded seeded sample of 3-saver interleavings (sub `sample3`), plus free-running threads without scheduler (sub `stress`). Non-trivial = the executed trace switches to another saver directly after a string registration of a saver that has not finished (i.e. between two registrations or between the last registration and the dump); distinct by configuration + schedule");
+    ctx.assume("decided at the granularity of H1's yield points: steps between two yield points are atomic (the RwLock makes each table operation atomic); the free-running leg only samples OS schedules");
+    ctx.assume("a saver that does not reach its next yield point within 300 s although it is the only runnable thread ends the process with exit 2 (inconclusive), never with a violation; blocking at the hooked lock sites is recognised without a clock (try-lock probe of H1)");
+    ctx.assume("content = decoded cells (independent decoder and the library's reader); unreferenced entries of sharedStrings.xml are C12's subject, not C16's");
+}
+
+// ---------------------------------------------------------------------------------------
+// cooperative scheduler
+
+pub mod sched {
+    use crate::engine::{guard, pick_idx, PanicInfo};
+    use std::cell::RefCell;
+    use std::sync::{Arc, Condvar, Mutex};
+    use std::time::{Duration, Instant};
+
+    #[derive(Clone, Copy, PartialEq, Debug)]
+    enum SState {
+        Starting,
+        Running,
+        Parked { site: &'static str, blocked: bool },
+        Done,
+    }
+
+    struct St {
+        /// the saver that holds the token (set by the controller, cleared by the saver when it parks or finishes)
+        turn: Option<usize>,
+        savers: Vec<SState>,
+        abort: bool,
+    }
+
+    pub struct Ctl {
+        st: Mutex<St>,
+        cv: Condvar,
+    }
+
+    thread_local! {
+        static CURRENT: RefCell<Option<(Arc<Ctl>, usize)>> = RefCell::new(None);
+    }
+
+    /// The process-global H1 callback.  Routed by thread identity: only threads that were
+    /// started as savers of a scheduled case have a controller; for every other thread
+    /// (other cases' controllers, sequential reference saves, the stress leg) it is a no-op,
+    /// so cases running in parallel on the rayon pool do not interfere.
+    pub fn dispatch(site: &'static str, blocked: bool) {
+        let cur = CURRENT.with(|c| c.borrow().clone());
+        match cur {
+            Some((ctl, id)) => ctl.park(id, site, blocked),
+            None => {
+                if blocked {
+                    std::thread::yield_now();
+                }
+            }
+        }
+    }
+
+    impl Ctl {
+        fn park(&self, id: usize, site: &'static str, blocked: bool) {
+            let mut g = self.st.lock().unwrap();
+            g.savers[id] = SState::Parked { site, blocked };
+            if g.turn == Some(id) {
+                g.turn = None;
+            }
+            self.cv.notify_all();
+            loop {
+                if g.abort {
+                    drop(g);
+                    panic!("verif: scheduler aborted this saver");
+                }
+                if g.turn == Some(id) {
+                    break;
+                }
+                g = self.cv.wait(g).unwrap();
+            }
+            g.savers[id] = SState::Running;
+        }
+        fn done(&self, id: usize) {
+            let mut g = self.st.lock().unwrap();
+            g.savers[id] = SState::Done;
+            if g.turn == Some(id) {
+                g.turn = None;
+            }
+            self.cv.notify_all();
+        }
+    }
+
+    #[derive(Clone, Debug)]
+    pub struct Step {
+        pub saver: usize,
+        /// the yield point the saver was resumed from (the step executes what follows it)
+        pub site: &'static str,
+        /// the resumed saver found the lock still held and reported back without progress
+        pub blocked: bool,
+    }
+
+    pub struct Outcome<R> {
+        pub results: Vec<Result<R, PanicInfo>>,
+        /// choice steps only (automatic advances over uninteresting sites are not listed)
+        pub trace: Vec<Step>,
+        pub deadlock: Option<String>,
+    }
+
+    /// Yield points at which the controller makes a choice.  `start` (before the library is
+    /// entered) and `make_buffer_exit` (everything shared is done) are passed automatically.
+    fn interesting(site: &str) -> bool {
+        !matches!(site, "start" | "make_buffer_exit")
+    }
+
+    fn raw_for(idx: usize, len: usize) -> u16 {
+        (((idx << 16) + len - 1) / len) as u16
+    }
+
+    /// Schedule (raw choices) that realises `word` (sequence of saver ids) when saver i has
+    /// `counts[i]` choice steps and nobody blocks.
+    pub fn schedule_for_word(word: &[u8], counts: &[usize]) -> Vec<u16> {
+        let mut rem = counts.to_vec();
+        let mut out = Vec::with_capacity(word.len());
+        for &s in word {
+            let live: Vec<usize> = (0..rem.len()).filter(|i| rem[*i] > 0).collect();
+            let idx = live.iter().position(|i| *i == s as usize).expect("word consistent with counts");
+            out.push(raw_for(idx, live.len()));
+            debug_assert_eq!(pick_idx(raw_for(idx, live.len()), live.len()), idx);
+            rem[s as usize] -= 1;
+        }
+        out
+    }
+
+    const STEP_TIMEOUT: Duration = Duration::from_secs(300);
+
+    /// Wait until nobody holds the token and no saver is starting or running.  The wall clock
+    /// is consulted for one purpose only: if the single runnable thread does not come back
+    /// within STEP_TIMEOUT the run is inconclusive (exit 2) — never a verdict.
+    fn wait_quiet<'a>(ctl: &'a Ctl, mut g: std::sync::MutexGuard<'a, St>) -> std::sync::MutexGuard<'a, St> {
+        let t0 = Instant::now();
+        while g.turn.is_some() || g.savers.iter().any(|s| matches!(s, SState::Starting | SState::Running)) {
+            let (ng, _) = ctl.cv.wait_timeout(g, Duration::from_secs(2)).unwrap();
+            g = ng;
+            if t0.elapsed() > STEP_TIMEOUT {
+                println!(
+                    "INCONCLUSIVE property=C16 the scheduled saver neither reached a yield point nor finished within {} s (states {:?}); it is blocked outside the lock sites H1 probes",
+                    STEP_TIMEOUT.as_secs(),
+                    g.savers
+                );
+                std::process::exit(2);
+            }
+        }
+        g
+    }
+
+    /// Run the jobs as threads of which exactly one is runnable at a time.  At every point
+    /// where all live savers are parked at an interesting yield point the next entry of
+    /// `schedule` selects (monotonically, among the savers that can make progress) the one
+    /// that runs until its next yield point; when the schedule is used up the lowest id runs.
+    pub fn run_scheduled<R: Send, F: FnOnce() -> R + Send>(jobs: Vec<F>, schedule: &[u16]) -> Outcome<R> {
+        let n = jobs.len();
+        let ctl = Arc::new(Ctl { st: Mutex::new(St { turn: None, savers: vec![SState::Starting; n], abort: false }), cv: Condvar::new() });
+        let mut trace: Vec<Step> = Vec::new();
+        let mut deadlock: Option<String> = None;
+        let results: Vec<Result<R, PanicInfo>> = std::thread::scope(|scope| {
+            let mut handles = Vec::new();
+            for (id, job) in jobs.into_iter().enumerate() {
+                let ctl = ctl.clone();
+                let h = std::thread::Builder::new()
+                    .stack_size(16 << 20)
+                    .spawn_scoped(scope, move || {
+                        CURRENT.with(|c| *c.borrow_mut() = Some((ctl.clone(), id)));
+                        let r = guard(|| {
+                            ctl.park(id, "start", false);
+                            job()
+                        });
+                        CURRENT.with(|c| *c.borrow_mut() = None);
+                        ctl.done(id);
+                        r
+                    })
+                    .expect("spawn saver thread");
+                handles.push(h);
+            }
+            // controller
+            let mut next = 0usize; // next schedule entry
+            let mut progress = 0u64; // number of steps that did something
+            let mut blocked_at: Vec<Option<u64>> = vec![None; n]; // progress value at which a saver reported "blocked"
+            let mut g = wait_quiet(&ctl, ctl.st.lock().unwrap());
+            loop {
+                let live: Vec<usize> = (0..n).filter(|i| matches!(g.savers[*i], SState::Parked { .. })).collect();
+                if live.is_empty() {
+                    break;
+                }
+                // automatic advance over uninteresting sites (nothing shared happens there; not a choice)
+                if let Some(&id) = live.iter().find(|i| matches!(g.savers[**i], SState::Parked { site, blocked: false } if !interesting(site))) {
+                    g.turn = Some(id);
+                    ctl.cv.notify_all();
+                    g = wait_quiet(&ctl, g);
+                    progress += 1;
+                    continue;
+                }
+                let runnable: Vec<usize> = live
+                    .iter()
+                    .copied()
+                    .filter(|i| match g.savers[*i] {
+                        SState::Parked { blocked: true, .. } => blocked_at[*i].map_or(true, |p| p < progress),
+                        _ => true,
+                    })
+                    .collect();
+                if runnable.is_empty() {
+                    // every live saver has probed its lock since anybody last made progress and found it
+                    // held: nothing can change any more -> deadlock, decided without a clock
+                    deadlock = Some(format!(
+                        "all live savers are blocked: {:?}",
+                        live.iter().map(|i| format!("saver {} at {:?}", i, g.savers[*i])).collect::<Vec<_>>()
+                    ));
+                    g.abort = true;
+                    ctl.cv.notify_all();
+                    break;
+                }
+                let raw = if next < schedule.len() { schedule[next] } else { 0 };
+                next += 1;
+                let id = runnable[pick_idx(raw, runnable.len())];
+                let site = match g.savers[id] {
+                    SState::Parked { site, .. } => site,
+                    _ => unreachable!(),
+                };
+                g.turn = Some(id);
+                ctl.cv.notify_all();
+                g = wait_quiet(&ctl, g);
+                if let SState::Parked { blocked: true, .. } = g.savers[id] {
+                    // the saver only probed its lock and reported back: no progress
+                    trace.push(Step { saver: id, site, blocked: true });
+                    blocked_at[id] = Some(progress);
+                } else {
+                    trace.push(Step { saver: id, site, blocked: false });
+                    blocked_at[id] = None;
+                    progress += 1;
+                }
+            }
+            drop(g);
+            handles.into_iter().map(|h| h.join().unwrap_or_else(|_| Err(PanicInfo { msg: "saver thread died".into(), file: "?".into(), line: 0 }))).collect()
+        });
+        Outcome { results, trace, deadlock }
+    }
+}
+
+// ---------------------------------------------------------------------------------------
+// case
+
+#[derive(Debug, Clone, Serialize, Deserialize)]
+pub struct ConcCase {
+    /// 0 = all savers save the same workbook through shared references; 1 = each saver saves its own clone
+    pub mode: u8,
+    /// history of the base workbook: 0 never saved, 1 saved once before, 2 written and read back, 3 written and read back lazily
+    pub pre: u8,
+    /// clones only: 0 equal string sets, 1 disjoint, 2 overlapping
+    pub relation: u8,
+    /// text cells per saver (2..=5); the length is the number of savers (2..=3)
+    pub cells: Vec<u8>,
+    /// the last text cell of a saver repeats its first string
+    pub dup: bool,
+    /// the workbook has a second sheet with one text cell (not edited by the savers)
+    pub second_sheet: bool,
+    pub schedule: Vec<u16>,
+}
+
+fn norm(c: &ConcCase) -> ConcCase {
+    let mut c = c.clone();
+    c.mode %= 2;
+    c.pre %= 4;
+    c.relation %= 3;
+    if c.cells.len() < 2 {
+        c.cells.resize(2, 2);
+    }
+    c.cells.truncate(3);
+    for n in c.cells.iter_mut() {
+        *n = (*n).clamp(2, 5);
+    }
+    if c.mode == 0 || c.relation == 0 {
+        let n0 = c.cells[0];
+        for n in c.cells.iter_mut() {
+            *n = n0;
+        }
+    }
+    c
+}
+
+fn feature(c: &ConcCase) -> String {
+    if c.mode == 0 {
+        "same-workbook".to_string()
+    } else {
+        format!("clones-{}", ["equal", "disjoint", "overlapping"][c.relation as usize])
+    }
+}
+
+/// The string saver `i` has in text cell `j` (cell A{j+1} of the first sheet).
+fn string_of(c: &ConcCase, i: usize, j: usize) -> String {
+    let n = c.cells[i] as usize;
+    let j = if c.dup && j + 1 == n { 0 } else { j };
+    let own = c.mode == 1 && (c.relation == 1 || (c.relation == 2 && j % 2 == 1));
+    if own {
+        format!("saver{}cell{}", i, j)
+    } else {
+        format!("base{}", j)
+    }
+}
+
+type Cells = BTreeMap<(u32, u32), (String, String)>;
+
+/// What saver i's file must decode to: sheet name -> (row, col) -> (kind, text).
+fn expected(c: &ConcCase, i: usize) -> Vec<(String, Cells)> {
+    let mut s1 = Cells::new();
+    for j in 0..c.cells[i] as usize {
+        s1.insert((j as u32 + 1, 1), ("s".to_string(), string_of(c, i, j)));
+    }
+    s1.insert((1, 2), ("n".to_string(), "7".to_string()));
+    let mut out = vec![("Sheet1".to_string(), s1)];
+    if c.second_sheet {
+        let mut s2 = Cells::new();
+        s2.insert((1, 1), ("s".to_string(), "second0".to_string()));
+        out.push(("Two".to_string(), s2));
+    }
+    out
+}
+
+fn fail_build(what: &str, p: PanicInfo) -> Verdict {
+    Verdict::fail(format!("build/{}-panic:{}", what, p.site()), p.short())
+}
+
+/// Builds the family of workbooks to be saved (one entry per saver; in mode 0 all entries
+/// are the same Arc).
+fn build_family(c: &ConcCase) -> Result<Vec<Arc<Spreadsheet>>, Verdict> {
+    let nsav = c.cells.len();
+    let nmax = *c.cells.iter().max().unwrap() as usize;
+    let base = guard(|| {
+        let mut wb = umya_spreadsheet::new_file();
+        {
+            let ws = wb.get_sheet_mut(&0).unwrap();
+            for j in 0..nmax {
+                let text = if c.mode == 0 { string_of(c, 0, j) } else { format!("base{}", j) };
+                ws.get_cell_mut((1u32, j as u32 + 1)).set_value_string(text);
+            }
+            ws.get_cell_mut((2u32, 1u32)).set_value_number(7);
+        }
+        if c.second_sheet {
+            let ws = wb.new_sheet("Two").unwrap();
+            ws.get_cell_mut((1u32, 1u32)).set_value_string("second0");
+        }
+        wb
+    })
+    .map_err(|p| fail_build("base", p))?;
+    let base = match c.pre {
+        0 => base,
+        1 => {
+            match save_to_vec(&base) {
+                Ok(Ok(_)) => {}
+                Ok(Err(e)) => return Err(Verdict::fail("build/pre-save-error", e)),
+                Err(p) => return Err(fail_build("pre-save", p)),
+            }
+            base
+        }
+        _ => {
+            let bytes = match save_to_vec(&base) {
+                Ok(Ok(b)) => b,
+                Ok(Err(e)) => return Err(Verdict::fail("build/pre-save-error", e)),
+                Err(p) => return Err(fail_build("pre-save", p)),
+            };
+            match guard(|| reader::xlsx::read_reader(Cursor::new(&bytes[..]), c.pre == 2)) {
+                Ok(Ok(wb)) => wb,
+                Ok(Err(e)) => return Err(Verdict::fail("build/pre-load-error", format!("{:?}", e))),
+                Err(p) => return Err(fail_build("pre-load", p)),
+            }
+        }
+    };
+    if c.mode == 0 {
+        let shared = Arc::new(base);
+        return Ok((0..nsav).map(|_| shared.clone()).collect());
+    }
+    let mut out = Vec::new();
+    for i in 0..nsav {
+        let wb = guard(|| {
+            let mut wb = base.clone();
+            let n = c.cells[i] as usize;
+            let needs_edit = n < nmax || (0..n).any(|j| string_of(c, i, j) != format!("base{}", j));
+            if needs_edit {
+                let ws = wb.get_sheet_mut(&0).unwrap();
+                for j in 0..nmax {
+                    if j >= n {
+                        ws.remove_cell((1u32, j as u32 + 1));
+                    } else {
+                        let s = string_of(c, i, j);
+                        if s != format!("base{}", j) {
+                            ws.get_cell_mut((1u32, j as u32 + 1)).set_value_string(s);
+                        }
+                    }
+                }
+            }
+            wb
+        })
+        .map_err(|p| fail_build("clone", p))?;
+        out.push(Arc::new(wb));
+    }
+    Ok(out)
+}
+
+fn library_view(bytes: &[u8]) -> Result<Vec<(String, Vec<(u32, u32, String, String)>)>, String> {
+    match guard(|| reader::xlsx::read_reader(Cursor::new(bytes), true)) {
+        Err(p) => Err(format!("panic:{}|{}", p.site(), p.short())),
+        Ok(Err(e)) => Err(format!("error|{:?}", e)),
+        Ok(Ok(wb)) => Ok(wb
+            .get_sheet_collection_no_check()
+            .iter()
+            .map(|ws| {
+                let mut cells: Vec<(u32, u32, String, String)> = ws
+                    .get_cell_collection()
+                    .iter()
+                    .map(|c| (*c.get_coordinate().get_row_num(), *c.get_coordinate().get_col_num(), c.get_data_type().to_string(), c.get_value().to_string()))
+                    .collect();
+                cells.sort();
+                (ws.get_name().to_string(), cells)
+            })
+            .collect()),
+    }
+}
+
+fn with_values(d: &[(String, DecodedSheet)]) -> Vec<(String, Cells)> {
+    d.iter().map(|(n, cells)| (n.clone(), cells.clone())).collect()
+}
+
+type SaveResult = Result<Vec<u8>, String>;
+
+/// Judge the file a saver produced against the specification and the sequential reference.
+fn judge_output(c: &ConcCase, i: usize, how: &str, res: &Result<SaveResult, PanicInfo>, reference: &[u8]) -> Result<(), Verdict> {
+    let f = feature(c);
+    let bytes = match res {
+        Err(p) => return Err(Verdict::fail(format!("{}/{}-save-panic:{}", f, how, p.site()), format!("saver {}: {}", i, p.short()))),
+        Ok(Err(e)) => return Err(Verdict::fail(format!("{}/{}-save-error", f, how), format!("saver {}: {}", i, e))),
+        Ok(Ok(b)) => b,
+    };
+    let want = expected(c, i);
+    let parts = unzip_parts(bytes).map_err(|e| Verdict::fail(format!("{}/{}-file-not-a-zip", f, how), format!("saver {}: {}", i, e)))?;
+    let got = match decode_package(&parts) {
+        Ok(d) => with_values(&d),
+        Err(e) => return Err(Verdict::fail(format!("{}/{}-file-undecodable", f, how), format!("saver {}: {}", i, e))),
+    };
+    if got != want {
+        return Err(Verdict::fail(
+            format!("{}/{}-cell-shows-other-string", f, how),
+            format!("saver {}: file decodes to {:?}, the workbook has {:?}", i, got, want),
+        ));
+    }
+    let lib = match library_view(bytes) {
+        Ok(v) => v,
+        Err(e) => {
+            let (kind, detail) = e.split_once('|').unwrap_or((&e, ""));
+            return Err(Verdict::fail(format!("{}/{}-file-reload-{}", f, how, kind), format!("saver {}: {}", i, detail)));
+        }
+    };
+    let lib_ref = match library_view(reference) {
+        Ok(v) => v,
+        Err(e) => return Err(Verdict::fail(format!("{}/sequential-file-reload-fails", f), format!("saver {}: {}", i, e))),
+    };
+    if lib != lib_ref {
+        return Err(Verdict::fail(
+            format!("{}/{}-differs-from-sequential", f, how),
+            format!("saver {}: reloaded {:?}, sequential save reloads as {:?}", i, lib, lib_ref),
+        ));
+    }
+    Ok(())
+}
+
+/// Sequential reference: a separately built, identical family saved one after the other.
+fn sequential_reference(c: &ConcCase) -> Result<Vec<Vec<u8>>, Verdict> {
+    let fam = build_family(c)?;
+    let mut out = Vec::new();
+    for (i, wb) in fam.iter().enumerate() {
+        let r = save_to_vec(wb);
+        // the reference must itself satisfy the specification
+        let bytes = match &r {
+            Ok(Ok(b)) => b.clone(),
+            _ => Vec::new(),
+        };
+        judge_output(c, i, "sequential", &r, &bytes)?;
+        out.push(bytes);
+    }
+    Ok(out)
+}
+
+fn trace_nontrivial(trace: &[sched::Step]) -> bool {
+    let ran: Vec<&sched::Step> = trace.iter().filter(|s| !s.blocked).collect();
+    ran.windows(2).any(|w| w[0].site == "cell_register" && w[1].saver != w[0].saver)
+}
+
+fn check_conc(c0: &ConcCase, obs: &mut Obs) -> Verdict {
+    // (re)install the router at the start of every case; it is the same function for all
+    // cases and routes by thread identity, see sched::dispatch
+    umya_spreadsheet::verif_hooks::set_yield_callback(Some(sched::dispatch));
+    let c = norm(c0);
+    let reference = match sequential_reference(&c) {
+        Ok(r) => r,
+        Err(v) => return v,
+    };
+    let fam = match build_family(&c) {
+        Ok(f) => f,
+        Err(v) => return v,
+    };
+    let jobs: Vec<_> = fam
+        .iter()
+        .map(|wb| {
+            let wb = wb.clone();
+            move || -> SaveResult {
+                let mut buf: Vec<u8> = Vec::new();
+                umya_spreadsheet::writer::xlsx::write_writer(&wb, &mut buf).map(|_| buf).map_err(|e| format!("{:?}", e))
+            }
+        })
+        .collect();
+    let out = sched::run_scheduled(jobs, &c.schedule);
+    let nt = trace_nontrivial(&out.trace);
+    obs.nontrivial(nt);
+    obs.class(feature(&c));
+    obs.class(format!("pre/{}", ["never-saved", "saved-before", "reloaded", "lazily-reloaded"][c.pre as usize]));
+    obs.class(format!("savers/{}", c.cells.len()));
+    let switches = out.trace.windows(2).filter(|w| w[0].saver != w[1].saver).count();
+    obs.class(format!("switches/{}", match switches { 0 => "0", 1 => "1", 2..=4 => "2-4", _ => "5+" }));
+    if out.trace.iter().any(|s| s.blocked) {
+        obs.class("trace/has-blocked-report");
+    }
+    let f = feature(&c);
+    let trace_txt = || out.trace.iter().map(|s| format!("{}:{}{}", s.saver, s.site, if s.blocked { "(blocked)" } else { "" })).collect::<Vec<_>>().join(" ");
+    if let Some(d) = &out.deadlock {
+        return Verdict::fail(format!("{}/deadlock", f), format!("{}; trace: {}", d, trace_txt()));
+    }
+    for (i, r) in out.results.iter().enumerate() {
+        if let Err(v) = judge_output(&c, i, "concurrent", r, &reference[i]) {
+            return match v {
+                Verdict::Fail { key, detail } => Verdict::fail(key, format!("{}; trace: {}", detail, trace_txt())),
+                v => v,
+            };
+        }
+    }
+    Verdict::Pass
+}
+
+fn case_strategy(_t: Tier) -> BoxedStrategy<ConcCase> {
+    (
+        prop_oneof![1 => Just(0u8), 3 => Just(1u8)],
+        0u8..=3,
+        0u8..=2,
+        prop::collection::vec(2u8..=5, 2..=3),
+        any::<bool>(),
+        prop::bool::weighted(0.3),
+        prop::collection::vec(any::<u16>(), 0..=30),
+    )
+        .prop_map(|(mode, pre, relation, cells, dup, second_sheet, schedule)| ConcCase { mode, pre, relation, cells, dup, second_sheet, schedule })
+        .boxed()
+}
+
+fn subs() -> Vec<Box<dyn DynSub>> {
+    vec![Box::new(Sub { name: "random", strategy: case_strategy, cases: (150, 5000), check: check_conc, max_shrink_iters: 3000 })]
+}
+
+// ---------------------------------------------------------------------------------------
+// exhaustive interleavings, 3-saver sample, stress
+
+/// Choice steps per saver (from a scheduled run with the default policy = sequential).
+fn step_counts(c: &ConcCase) -> Result<Vec<usize>, Verdict> {
+    umya_spreadsheet::verif_hooks::set_yield_callback(Some(sched::dispatch));
+    let fam = build_family(c)?;
+    let jobs: Vec<_> = fam
+        .iter()
+        .map(|wb| {
+            let wb = wb.clone();
+            move || -> SaveResult {
+                let mut buf: Vec<u8> = Vec::new();
+                umya_spreadsheet::writer::xlsx::write_writer(&wb, &mut buf).map(|_| buf).map_err(|e| format!("{:?}", e))
+            }
+        })
+        .collect();
+    let out = sched::run_scheduled(jobs, &[]);
+    let mut counts = vec![0usize; c.cells.len()];
+    for s in &out.trace {
+        if !s.blocked {
+            counts[s.saver] += 1;
+        }
+    }
+    Ok(counts)
+}
+
+/// All words over {0,1} with `a` zeros and `b` ones.
+fn words2(a: usize, b: usize) -> Vec<Vec<u8>> {
+    fn rec(a: usize, b: usize, cur: &mut Vec<u8>, out: &mut Vec<Vec<u8>>) {
+        if a == 0 && b == 0 {
+            out.push(cur.clone());
+            return;
+        }
+        if a > 0 {
+            cur.push(0);
+            rec(a - 1, b, cur, out);
+            cur.pop();
+        }
+        if b > 0 {
+            cur.push(1);
+            rec(a, b - 1, cur, out);
+            cur.pop();
+        }
+    }
+    let mut out = Vec::new();
+    rec(a, b, &mut Vec::new(), &mut out);
+    out
+}
+
+fn configs(cells: &[u8], second_for_eager: bool) -> Vec<ConcCase> {
+    let mut v = Vec::new();
+    let mk = |mode: u8, pre: u8, relation: u8, second_sheet: bool, dup: bool| ConcCase { mode, pre, relation, cells: cells.to_vec(), dup, second_sheet, schedule: vec![] };
+    for pre in 0..=2u8 {
+        v.push(mk(0, pre, 0, second_for_eager, false));
+        for relation in 0..=2u8 {
+            v.push(mk(1, pre, relation, second_for_eager, relation == 2));
+        }
+    }
+    // lazily reloaded base: the second sheet stays unloaded while the first is edited by the clones
+    for relation in 1..=2u8 {
+        v.push(mk(1, 3, relation, true, false));
+    }
+    v
+}
+
+fn run_enumerated(ctx: &Ctx, sub: &'static str, cases: Vec<ConcCase>, stop: &AtomicBool) {
+    let nts = AtomicU64::new(0);
+    cases.par_iter().for_each(|c| {
+        if stop.load(Ordering::Relaxed) {
+            return;
+        }
+        let mut obs = Obs::default();
+        let v = match guard(|| check_conc(c, &mut obs)) {
+            Ok(v) => v,
+            Err(p) => Verdict::fail(format!("harness-panic:{}", p.site()), p.short()),
+        };
+        let fp = fnv(serde_json::to_string(c).unwrap().as_bytes()) ^ fnv(sub.as_bytes());
+        ctx.count_case(fp, obs.nontrivial);
+        if obs.nontrivial && nts.fetch_add(1, Ordering::Relaxed) < 2 {
+            ctx.add_sample(json!({"sub": sub, "case": c}));
+        }
+        for cl in &obs.classes {
+            ctx.add_class(&format!("{}/{}", sub, cl), 1);
+        }
+        if ctx.judge(sub, c, v) {
+            stop.store(true, Ordering::Relaxed);
+        }
+    });
+}
+
+fn stress_config(k: u64) -> ConcCase {
+    let all = configs(&[5, 5, 5], k % 2 == 0);
+    let mut c = all[(k as usize) % all.len()].clone();
+    c.dup = k % 3 == 0;
+    c
+}
+
+/// Free-running leg: the savers are plain threads released by a barrier, each saves its
+/// workbook `rounds` times; no scheduler (the callback is a no-op for these threads).
+fn check_stress(c0: &ConcCase, rounds: usize) -> Verdict {
+    umya_spreadsheet::verif_hooks::set_yield_callback(Some(sched::dispatch));
+    let c = norm(c0);
+    let reference = match sequential_reference(&c) {
+        Ok(r) => r,
+        Err(v) => return v,
+    };
+    let fam = match build_family(&c) {
+        Ok(f) => f,
+        Err(v) => return v,
+    };
+    let barrier = Arc::new(Barrier::new(fam.len()));
+    let results: Vec<Vec<Result<SaveResult, PanicInfo>>> = std::thread::scope(|s| {
+        let hs: Vec<_> = fam
+            .iter()
+            .map(|wb| {
+                let wb = wb.clone();
+                let barrier = barrier.clone();
+                s.spawn(move || {
+                    barrier.wait();
+                    (0..rounds).map(|_| save_to_vec(&wb)).collect::<Vec<_>>()
+                })
+            })
+            .collect();
+        hs.into_iter().map(|h| h.join().unwrap_or_default()).collect()
+    });
+    for (i, rs) in results.iter().enumerate() {
+        if rs.len() != rounds {
+            return Verdict::fail(format!("{}/free-running-saver-died", feature(&c)), format!("saver {} returned {} of {} results", i, rs.len(), rounds));
+        }
+        for r in rs {
+            if let Err(v) = judge_output(&c, i, "free-running", r, &reference[i]) {
+                return v;
+            }
+        }
+    }
+    Verdict::Pass
+}
+
+/// Self-test of the scheduler (a failure is a broken harness: exit 2, never a violation).
+fn scheduler_selftest() -> Result<(), String> {
+    use std::sync::{Mutex, RwLock};
+    use umya_spreadsheet::verif_hooks::{yield_point, yield_point_before_lock};
+    umya_spreadsheet::verif_hooks::set_yield_callback(Some(sched::dispatch));
+    // 1. the executed order is exactly the scheduled word
+    for word in [vec![0u8, 1, 1, 0, 1, 0], vec![1, 1, 1, 0, 0, 0], vec![0, 1, 0, 1, 0, 1], vec![2, 0, 2, 1, 1, 0, 2, 1, 0]] {
+        let n = *word.iter().max().unwrap() as usize + 1;
+        let counts = vec![3usize; n];
+        let log: Mutex<Vec<u8>> = Mutex::new(Vec::new());
+        let jobs: Vec<_> = (0..n)
+            .map(|i| {
+                let log = &log;
+                move || {
+                    for _ in 0..3 {
+                        yield_point("cell_register");
+                        log.lock().unwrap().push(i as u8);
+                    }
+                }
+            })
+            .collect();
+        let out = sched::run_scheduled(jobs, &sched::schedule_for_word(&word, &counts));
+        let got = log.lock().unwrap().clone();
+        if got != word || out.deadlock.is_some() || out.results.iter().any(|r| r.is_err()) {
+            return Err(format!("schedule {:?} executed as {:?} (deadlock {:?})", word, got, out.deadlock));
+        }
+        let traced: Vec<u8> = out.trace.iter().map(|s| s.saver as u8).collect();
+        if traced != word {
+            return Err(format!("schedule {:?} traced as {:?}", word, traced));
+        }
+    }
+    // 2. a lock-order inversion deadlocks under the interleaving that exposes it, and only there
+    for (word, expect_deadlock) in [(vec![0u8, 0, 1, 1], false), (vec![0u8, 1, 0, 1], true), (vec![1u8, 0, 1, 0], true), (vec![1u8, 1, 0, 0], false)] {
+        let (l1, l2) = (RwLock::new(()), RwLock::new(()));
+        let (a, b) = (&l1, &l2);
+        fn job<'a>(first: &'a RwLock<()>, second: &'a RwLock<()>) -> Box<dyn FnOnce() + Send + 'a> {
+            Box::new(move || {
+                yield_point("enter");
+                let _g1 = first.write().unwrap();
+                yield_point_before_lock("second", second, true);
+                let _g2 = second.write().unwrap();
+            })
+        }
+        let jobs = vec![job(a, b), job(b, a)];
+        let out = sched::run_scheduled(jobs, &sched::schedule_for_word(&word, &[2, 2]));
+        if out.deadlock.is_some() != expect_deadlock {
+            return Err(format!("lock-order inversion under {:?}: deadlock reported = {:?}, expected {}", word, out.deadlock, expect_deadlock));
+        }
+        if !expect_deadlock && out.results.iter().any(|r| r.is_err()) {
+            return Err(format!("lock-order inversion under {:?}: a job failed without deadlock", word));
+        }
+    }
+    // 3. a lock held across a yield point delays the other thread but is not a deadlock
+    {
+        let l = RwLock::new(());
+        let lr = &l;
+        let holder: Box<dyn FnOnce() + Send> = Box::new(move || {
+            let g = lr.write().unwrap();
+            yield_point("holding");
+            drop(g);
+        });
+        let wanter: Box<dyn FnOnce() + Send> = Box::new(move || {
+            yield_point_before_lock("want", lr, true);
+            let _g = lr.write().unwrap();
+        });
+        // the schedule asks for the wanter first (index 1 of 2)
+        let out = sched::run_scheduled(vec![holder, wanter], &[32768, 32768, 32768]);
+        if out.deadlock.is_some() || out.results.iter().any(|r| r.is_err()) || !out.trace.iter().any(|s| s.blocked) {
+            return Err(format!("lock held across a yield: deadlock {:?}, trace {:?}", out.deadlock, out.trace));
+        }
+    }
+    Ok(())
+}
+
+fn extra(ctx: &Ctx) {
+    if let Err(e) = scheduler_selftest() {
+        println!("HARNESS-ERROR: C16 scheduler self-test failed: {}", e);
+        std::process::exit(2);
+    }
+    ctx.add_class("scheduler-selftest/passed", 1);
+    let stop = AtomicBool::new(false);
+    // --- every interleaving of the 2-saver configurations
+    let cell_sets: Vec<(Vec<u8>, bool)> = match ctx.tier {
+        Tier::Quick => vec![(vec![2, 2], false)],
+        Tier::Thorough => vec![(vec![2, 2], false), (vec![2, 2], true), (vec![2, 3], false), (vec![3, 3], false), (vec![3, 3], true), (vec![4, 4], false), (vec![2, 5], false), (vec![5, 5], false)],
+    };
+    let mut enumerated = Vec::new();
+    let mut domains = Vec::new();
+    for (cells, second) in &cell_sets {
+        for cfg in configs(cells, *second) {
+            let cfg = norm(&cfg);
+            let counts = match step_counts(&cfg) {
+                Ok(c) => c,
+                Err(v) => {
+                    ctx.judge("exhaustive2", &cfg, v);
+                    continue;
+                }
+            };
+            let words = words2(counts[0], counts[1]);
+            domains.push(json!({"config": {"mode": cfg.mode, "pre": cfg.pre, "relation": cfg.relation, "cells": cfg.cells, "second_sheet": cfg.second_sheet, "dup": cfg.dup}, "steps": counts, "interleavings": words.len()}));
+            for w in words {
+                let mut c = cfg.clone();
+                c.schedule = sched::schedule_for_word(&w, &counts);
+                enumerated.push(c);
+            }
+        }
+    }
+    ctx.add_class("exhaustive2/configurations", domains.len() as u64);
+    run_enumerated(ctx, "exhaustive2", enumerated, &stop);
+    ctx.set_extra("exhaustive_domains", Value::Array(domains));
+    ctx.exhaustive.store(true, Ordering::Relaxed);
+
+    // --- bounded seeded sample of 3-saver interleavings
+    let per_cfg = ctx.tier.pick(40usize, 1500usize);
+    let mut sampled = Vec::new();
+    let mut x = splitmix(ctx.seed ^ 0xC16_3);
+    for cfg in configs(&[2, 2, 2], false).into_iter().chain(if ctx.tier == Tier::Thorough { configs(&[3, 2, 4], true) } else { Vec::new() }) {
+        let cfg = norm(&cfg);
+        let counts = match step_counts(&cfg) {
+            Ok(c) => c,
+            Err(v) => {
+                ctx.judge("sample3", &cfg, v);
+                continue;
+            }
+        };
+        for _ in 0..per_cfg {
+            // a uniformly shuffled word with the right letter counts (Fisher-Yates, seeded)
+            let mut w: Vec<u8> = counts.iter().enumerate().flat_map(|(i, n)| std::iter::repeat(i as u8).take(*n)).collect();
+            for k in (1..w.len()).rev() {
+                x = splitmix(x);
+                let j = (x % (k as u64 + 1)) as usize;
+                w.swap(k, j);
+            }
+            let mut c = cfg.clone();
+            c.schedule = sched::schedule_for_word(&w, &counts);
+            sampled.push(c);
+        }
+    }
+    run_enumerated(ctx, "sample3", sampled, &stop);
+
+    // --- free-running stress (fixed iteration count, sequential so that the threads really contend)
+    let iters = ctx.tier.pick(300u64, 6000u64);
+    let rounds = 6;
+    for k in 0..iters {
+        if stop.load(Ordering::Relaxed) {
+            break;
+        }
+        let c = stress_config(k.wrapping_add(ctx.seed));
+        let v = match guard(|| check_stress(&c, rounds)) {
+            Ok(v) => v,
+            Err(p) => Verdict::fail(format!("harness-panic:{}", p.site()), p.short()),
+        };
+        ctx.count_case(fnv(serde_json::to_string(&c).unwrap().as_bytes()) ^ fnv(b"stress") ^ k, false);
+        ctx.add_class("stress/iterations", 1);
+        if ctx.judge("stress", &c, v) {
+            break;
+        }
+    }
+}
+
+fn replay_extra(_ctx: &Ctx, sub: &str, case: &Value) -> Option<Verdict> {
+    let c: ConcCase = serde_json::from_value(case.clone()).ok()?;
+    match sub {
+        "exhaustive2" | "sample3" => {
+            let mut obs = Obs::default();
+            Some(check_conc(&c, &mut obs))
+        }
+        "stress" => {
+            // an OS schedule cannot be replayed exactly: repeat the free-running run
+            for _ in 0..200 {
+                let v = check_stress(&c, 6);
+                if !matches!(v, Verdict::Pass) {
+                    return Some(v);
+                }
+            }
+            Some(Verdict::Pass)
+        }
+        _ => None,
     }
 }
